@@ -146,6 +146,7 @@ let parse_op17 t =
   | 'v' -> Available (nat_of_int (int_tail t 1))
   | 'k' -> Clone
   | 'h' -> DropClone
+  | 'w' -> DropClone     (* Debug-formatting a handle or a guard: like dropping a spare handle, it touches nothing *)
   | _ -> failwith ("bad op " ^ t)
 
 let show_obs17 ob =
